@@ -165,6 +165,17 @@ def check_case(case):
     arg = json.dumps(payload) if case.get("text") else payload
     obj, exc = core.guarded(stix2.parse, arg, allow_custom=False)
     feats = input_features(payload)
+    if exc is None:
+        # naming the content's own version ("locking" the parser) refuses nothing that is valid under that version -- a 2.1 bundle may
+        # carry 2.0 members also then
+        own = ("2.0" if "spec_version" in payload else "2.1") if payload.get("type") == "bundle" else ver
+        obj_v, exc_v = core.guarded(stix2.parse, arg, allow_custom=False, version=own)
+        if exc_v is not None:
+            fails.append(("valid-refused:own-version-named", "parse(%s, version=%r) raised %s although the same call without a version accepts it" % (
+                core.short(payload, 300), own, core.fmt_exc(exc_v))))
+        elif type(obj_v) is not type(obj) or core.guarded(obj_v.serialize)[0] != core.guarded(obj.serialize)[0]:
+            if "id" in payload or payload.get("type") == "bundle":     # (an id-less 2.1 observable gets a fresh random id on every parse)
+                fails.append(("content-changed:own-version-named", "parse(..., version=%r) gives %s, without a version %s" % (own, core.short(str(obj_v), 200), core.short(str(obj), 200))))
     if exc is not None:
         key = "valid-refused"
         msg = str(exc)
